@@ -95,3 +95,11 @@ check("C12", "exploration",
       TRUST + " Pre-emption granularity is the source line inside websocket/*.py.",
       "deterministic simulation: seeded scheduler over baton-passed threads (coop/prob/PCT + depth-1 at(k) sweep), exhaustive short-write fault patterns",
       "DESIGN.md section 6 C12")
+check("C08", "exploration",
+      "Reference connection state machine checked after every step of seeded histories (<=12 client calls interleaved "
+      "in virtual time with peer data/ping/close/eof/reset/silence and eight peer reactions to the client's close, "
+      "including chatty and byte-trickling peers); a full grid close(status, timeout) x reaction x status is enumerated. "
+      "Checks: <=1 own close frame, payload = !H status||reason, out-of-range statuses refused with nothing written, "
+      "transport released and later calls raise connection-closed without touching a socket, close() returns within "
+      "its timeout.", TRUST, "deterministic simulation: seeded call/event histories in virtual time with silent/slow/chatty/trickling peer faults, reference state machine oracle",
+      "DESIGN.md section 6 C08")
